@@ -332,6 +332,7 @@ class BodyPartReader:
             raise ValueError(f"invalid Content-Length: {length!r}")
         self._length = int(length) if length is not None else None
         self._read_bytes = 0
+        self._content_end_seen = False
         self._b64_carry = b""
         self._unread: deque[bytes] = deque()
         self._prev_chunk: bytes | None = None
@@ -402,6 +403,11 @@ class BodyPartReader:
                 warnings.filterwarnings("ignore", category=DeprecationWarning)
                 self._content.unread_data(b"".join(self._unread))
             self._unread.clear()
+            if self._content_end_seen:
+                # readline() has delivered the last line: what went back to
+                # the stream is the delimiter.
+                self._at_eof = True
+                return b""
         carry = self._b64_carry
         want = size - len(carry)
         if carry:
@@ -540,8 +546,12 @@ class BodyPartReader:
             next_line = await self._content.readline()
             if next_line.startswith(self._boundary):
                 line = line[:-2]  # strip CRLF but only once
+                # (that CRLF belongs to the delimiter: the content ends here)
+                self._content_end_seen = True
             self._unread.append(next_line)
 
+        # A part with a Content-Length is read by count.
+        self._read_bytes += len(line)
         return line
 
     async def release(self) -> None:
